@@ -30,6 +30,11 @@ STORAGE = {
 }
 
 
+# scopes that queue events on the caller's behalf and therefore must deliver them on exit
+FLUSHING_SCOPES = {"param.parameterized._batch_call_watchers", "param.parameterized.batch_call_watchers",
+                   "param.parameterized.Parameters._update"}
+
+
 def field_of_target(ctx, f: Func, t, aliases, local_fields) -> Optional[str]:
     if isinstance(t, ast.Name):
         return None  # rebinding a local (e.g. the save itself) is not a write of the field
@@ -89,7 +94,7 @@ class Scope:
                 (self.orig if norm(v) == const else self.temp).append(w)
             self.orig_desc = "the constant %s (lexically last write)" % const
         self.orig_asts = {id(w.ast) for w in self.orig}
-        self.is_temp_scope = bool(self.orig) and bool(self.temp)
+        self.is_temp_scope = bool(self.temp) and (bool(self.orig) or bool(self.saves))
 
     def contains_orig(self, stmts) -> bool:
         for s in stmts:
@@ -239,6 +244,9 @@ def run(ctx):
         # ---- R05.c / R05.d : flushing scopes
         if fld == "_BATCH_WATCH":
             flush_nodes = [n for n in cfg.live_nodes() if any(is_flush_call(c) for c in calls_in(n))]
+            if not flush_nodes and f.qualname in FLUSHING_SCOPES:
+                ctx.fail("R05.c", f, f.node, "%s raises the batching flag but never flushes: changes applied inside stay queued until an unrelated assignment" % f.qualname,
+                         key="%s::no-flush" % f.qualname)
             if flush_nodes and s.saves:
                 guards = set()
                 for fn_ in flush_nodes:
